@@ -347,6 +347,17 @@ def build_base(names, log):
     return None
 
 
+def coq_scratch(name, text, timeout=600):
+    """vlib.coq_eval, then remove the scratch source as well"""
+    try:
+        return vlib.coq_eval(name, text, timeout=timeout)
+    finally:
+        for ext in (".v", ".glob"):
+            q = os.path.join(vlib.RUN, name + ext)
+            if os.path.exists(q):
+                os.remove(q)
+
+
 def coqc(rel, timeout=1200):
     rc, o, e = vlib.sh(["coqc", "-Q", ".", "PGV", "-w", "-all", rel], cwd=vlib.COQ, timeout=timeout)
     return rc, o, e
@@ -469,7 +480,7 @@ def run_walks(info, rnds, steps, log, focus=()):
     body = ("From PGV Require Import C02.Lang C02.Sem C02.Show C02.Walk %s.%s_walkdefs.\nOpen Scope string_scope.\n" % (GEN_NAME, name))
     body += "Definition wall := Eval vm_compute in map (%s_walk_report %d [%s]) [%s]%%N.\nPrint wall.\n" % (
         name, steps, "; ".join('"%s"' % f for f in focus), ";\n ".join("[" + "; ".join(str(x) for x in r) + "]" for r in rnds))
-    rc, out, err = vlib.coq_eval("C02_walk_%s_%d" % (name, os.getpid()), body, timeout=1200)
+    rc, out, err = coq_scratch("C02_walk_%s_%d" % (name, os.getpid()), body, timeout=1500)
     if rc != 0:
         return [], {}, "walk evaluation failed: " + (out + err)[-800:]
     flat = re.sub(r"\s+", " ", out).replace('""', '"')
@@ -548,10 +559,13 @@ def real_go_locksvc(info, cases, log, num_clients=3):
             meta.append({"case": r["id"], "p": so["p"], "label": so["label"], "outcome": so["outcome"], "ks": st["ks"]})
             cur = nstate
             nstate += 1
-    body.append("Definition R := Eval vm_compute in cat [%s].\nPrint R.\n" % ";\n ".join(rows))
-    rc, out, err = vlib.coq_eval("C02_real_%d" % os.getpid(), "".join(body), timeout=900)
-    if rc != 0:
-        return 0, [], "evaluation of the real-Go comparison failed: " + (out + err)[-800:]
+    out = ""
+    for s0_ in range(0, len(rows), 600):
+        part = body + ["Definition R%d := Eval vm_compute in cat [%s].\nPrint R%d.\n" % (s0_, ";\n ".join(rows[s0_:s0_ + 600]), s0_)]
+        rc, o, err = coq_scratch("C02_real_%d" % os.getpid(), "".join(part), timeout=900)
+        if rc != 0:
+            return 0, [], "evaluation of the real-Go comparison failed: " + (o + err)[-800:]
+        out += o
     flat = re.sub(r"\s+", " ", out).replace('""', '"')
     mism = []
     for mm in flat.split("#@#REAL")[1:]:
@@ -589,7 +603,7 @@ def confirm_on_real_go_locksvc(info, m, log, num_clients=3):
         "Server" if so["p"] == 0 else "client", so["label"], so["self"], "; ".join(str(k) for k in steps[-1]["ks"]),
         so["outcome"].replace('"', "'")[:60])
     body.append('Definition R := Eval vm_compute in (real_step_ok_with false %s, real_step_ok_with true %s).\nPrint R.\n' % (args, args))
-    rc, out, err = vlib.coq_eval("C02_confirm_%d" % os.getpid(), "".join(body), timeout=600)
+    rc, out, err = coq_scratch("C02_confirm_%d" % os.getpid(), "".join(body), timeout=600)
     if rc != 0:
         return {"status": "not run: comparison did not evaluate: " + (out + err)[-300:]}
     flat = re.sub(r"\s+", " ", out)
